@@ -202,7 +202,8 @@ def get_lonlatalt(pos, utc_time):
         # NaN positions (pixels missing the ellipsoid) never converge: ignore them
         if np.all((abs(lat - lat2) < 1e-10) | np.isnan(lat)):
             break
-    alt = r / np.cos(lat) - c
+    # r / cos(lat) - c is 0/0 on the polar axis and ill-conditioned near it; this equal form is not
+    alt = r * np.cos(lat) + pos_z * np.sin(lat) - np.sqrt(1 - e2 * np.sin(lat) * np.sin(lat))
     alt *= A
     return np.rad2deg(lon), np.rad2deg(lat), alt
 
